@@ -70,6 +70,8 @@ func safe(addr uint16) bool {
 	switch addr {
 	case 0xff06, 0xff42, 0xff43, 0xff45, 0xff47, 0xff48, 0xff49, 0xff4a, 0xff4b:
 		return true
+	case 0xff04: // DIV: reads the divider's high byte, any store clears it (checked by count)
+		return true
 	}
 	return false
 }
@@ -101,6 +103,9 @@ func opName(res *ref.Result) string {
 // Returns the prediction (nil if the opcode is undefined and nothing was executed).
 func (s *sim) run(regs ref.Regs, full bool, what string) *ref.Result {
 	m := s.m
+	// the divider is the witness for stores that do not change a byte: it is set to a known
+	// non-zero count first, and any store to DIV (FF04) clears it
+	m.Timer.XSetCounter(0x1234)
 	pred := ref.Exec(regs, s.rd, false)
 	if pred.Undefined {
 		return nil
@@ -134,8 +139,23 @@ func (s *sim) run(regs ref.Regs, full bool, what string) *ref.Result {
 	if got.F&0x0f != 0 {
 		s.c.Violate("flag-low-nibble", fmt.Sprintf("F=%02X after %s", got.F, name), nil)
 	}
+	wroteDIV := false
 	for _, a := range pred.Acc {
-		if !a.Write {
+		if a.Write && a.Addr == 0xff04 {
+			wroteDIV = true
+		}
+	}
+	switch cnt := m.Timer.XCounter(); {
+	case wroteDIV && cnt != 0:
+		s.c.Violate(name+"-store-to-div-missing", fmt.Sprintf("%s %s: the instruction stores to FF04 (DIV), yet the divider was not cleared (count %04X)", name, what, cnt), nil)
+	case !wroteDIV && cnt != 0x1234:
+		s.c.Violate(name+"-store-to-div-spurious", fmt.Sprintf("%s %s: the instruction does not store to FF04, yet the divider went from 1234 to %04X", name, what, cnt), nil)
+	}
+	if wroteDIV {
+		s.c.Count("stores_witnessed_by_the_divider", 1)
+	}
+	for _, a := range pred.Acc {
+		if !a.Write || a.Addr == 0xff04 {
 			continue
 		}
 		switch {
@@ -191,6 +211,9 @@ func (s *sim) run(regs ref.Regs, full bool, what string) *ref.Result {
 		for _, a := range pred.Acc {
 			if a.Write {
 				exp[a.Addr] = a.Val
+				if a.Addr == 0xff04 {
+					exp[a.Addr] = 0x00 // a store to DIV clears the divider, whatever the value
+				}
 				if a.Addr >= 0xc000 && a.Addr < 0xde00 {
 					exp[a.Addr+0x2000] = a.Val
 				}
@@ -240,6 +263,10 @@ func safeAddr(r *rig.Rng) uint16 {
 		return 0x8000 + uint16(r.Intn(0x2000))
 	case 9:
 		return 0xa000 + uint16(r.Intn(0x2000))
+	case 10:
+		if r.Chance(1, 2) {
+			return 0xff04 // the divider as the addressed byte
+		}
 	}
 	return 0xc000 + uint16(r.Intn(0x2000))
 }
@@ -281,11 +308,11 @@ func (s *sim) genCase(r *rig.Rng, op []byte, fl uint8) (ref.Regs, []byte, bool) 
 			if n == 2 && (op[0] == 0xe0 || op[0] == 0xf0) {
 				code[1] = 0x80 + uint8(r.Intn(0x7f))
 				if r.Chance(1, 3) {
-					code[1] = r.Pick8([]uint8{0x06, 0x42, 0x43, 0x45, 0x47, 0x48, 0x49, 0x4a, 0x4b})
+					code[1] = r.Pick8([]uint8{0x06, 0x42, 0x43, 0x45, 0x47, 0x48, 0x49, 0x4a, 0x4b, 0x04, 0x04})
 				}
 			}
 			if try > 1 && (op[0] == 0xe2 || op[0] == 0xf2) && r.Chance(1, 3) {
-				regs.C = r.Pick8([]uint8{0x06, 0x42, 0x43, 0x45, 0x47, 0x48, 0x49, 0x4a, 0x4b})
+				regs.C = r.Pick8([]uint8{0x06, 0x42, 0x43, 0x45, 0x47, 0x48, 0x49, 0x4a, 0x4b, 0x04, 0x04})
 			}
 		}
 		mem := func(a uint16) uint8 {
